@@ -100,9 +100,9 @@ func stringValue(info *types.Info, e ast.Expr) (string, bool) {
 // caseValues returns, for a value switch, the map clause -> integer values of its case list,
 // plus whether the switch has a default clause.
 type switchCover struct {
-	Vals    map[int64]*ast.CaseClause // first clause listing the value
-	Dups    []int64
-	Default *ast.CaseClause
+	Vals     map[int64]*ast.CaseClause // first clause listing the value
+	Dups     []int64
+	Default  *ast.CaseClause
 	NonConst []ast.Expr
 }
 
